@@ -17,6 +17,7 @@ enum Ty {
     Int,
     Qubit,
     Gate,
+    HwQubit,
 }
 
 fn real_type(t: Ty) -> Type {
@@ -24,6 +25,7 @@ fn real_type(t: Ty) -> Type {
         Ty::Int => Type::Int(Some(32), IsConst::False),
         Ty::Qubit => Type::Qubit,
         Ty::Gate => Type::Gate(1, 2),
+        Ty::HwQubit => Type::HardwareQubit,
     }
 }
 
@@ -45,10 +47,12 @@ fn op_text(op: &Op) -> String {
         Op::Bind(n, Ty::Int) => format!("bi:{n}"),
         Op::Bind(n, Ty::Qubit) => format!("bq:{n}"),
         Op::Bind(n, Ty::Gate) => format!("bg:{n}"),
+        Op::Bind(n, Ty::HwQubit) => format!("bh:{n}"),
         Op::Lookup(n) => format!("l:{n}"),
         Op::LookupOrBind(n, Ty::Int) => format!("oi:{n}"),
         Op::LookupOrBind(n, Ty::Qubit) => format!("oq:{n}"),
         Op::LookupOrBind(n, Ty::Gate) => format!("og:{n}"),
+        Op::LookupOrBind(n, Ty::HwQubit) => format!("oh:{n}"),
     }
 }
 
@@ -57,6 +61,7 @@ fn parse_op(s: &str) -> Option<Op> {
         "i" => Some(Ty::Int),
         "q" => Some(Ty::Qubit),
         "g" => Some(Ty::Gate),
+        "h" => Some(Ty::HwQubit),
         _ => None,
     };
     Some(match s {
@@ -173,10 +178,18 @@ impl Run {
                 self.model.scopes.push(HashMap::new());
             }
             Op::Exit => {
-                // exit at depth 1 is documented as a programming error: not forwarded.
                 if self.model.scopes.len() > 1 {
                     self.table.exit_scope();
                     self.model.scopes.pop();
+                } else {
+                    // Leaving the global scope is documented as a programming error (an assertion):
+                    // the call must not succeed in closing it.  The assertion is the first thing
+                    // exit_scope does, so after it has fired the table is as before.
+                    let table = &mut self.table;
+                    let r = guard(std::panic::AssertUnwindSafe(|| table.exit_scope()));
+                    if r.is_ok() && self.table.verif_scope_depth() != 1 {
+                        return fail("global-scope-closed", format!("exit_scope() with only the global scope open was accepted; {} scopes remain", self.table.verif_scope_depth()));
+                    }
                 }
             }
             Op::Bind(name, ty) => {
@@ -250,6 +263,17 @@ impl Run {
                     return fail("lookup-visibility", format!("lookup({name}) = {:?}, model {:?}", r.map(|x| x.symbol_id()), m));
                 }
             }
+        }
+        // the listing accessors hand out the same ids
+        let hw: Vec<(String, usize)> = self.table.hardware_qubits().into_iter().map(|(n, id)| (n.to_string(), self.table.verif_symbol_ordinal(&id))).collect();
+        let hw_model: Vec<(String, usize)> = self.model.symbols.iter().enumerate().filter(|(_, s)| s.1 == Some(Ty::HwQubit)).map(|(i, s)| (s.0.clone(), i)).collect();
+        if hw != hw_model {
+            return fail("hardware-qubits-listing", format!("{hw:?} vs model {hw_model:?}"));
+        }
+        let gl: Vec<(String, usize)> = self.table.gates().map(|(n, id, _, _)| (n.to_string(), self.table.verif_symbol_ordinal(&id))).collect();
+        let gl_model: Vec<(String, usize)> = self.model.symbols.iter().enumerate().filter(|(_, s)| s.1 == Some(Ty::Gate)).map(|(i, s)| (s.0.clone(), i)).collect();
+        if gl != gl_model {
+            return fail("gates-listing", format!("{gl:?} vs model {gl_model:?}"));
         }
         // every id ever issued still denotes the same name and type
         for (mid, (name, _)) in self.model.symbols.iter().enumerate() {
@@ -341,7 +365,7 @@ fn dfs(run: &Run, hist: &mut Vec<Op>, maxlen: usize, alphabet: &[Op], obs: &mut 
 
 fn check_start(obs: &mut Obs) -> Option<Run> {
     let r = guard(|| {
-        let run = Run::new(&["a", "b", "c", "d"]);
+        let run = Run::new(&["a", "b", "c", "d", "$0", "$1"]);
         let c = run.compare("new");
         (run, c)
     });
@@ -444,8 +468,12 @@ fn random_history(r: &mut Rng) -> Vec<Op> {
     let mut v = Vec::with_capacity(n);
     let mut depth = 1;
     for _ in 0..n {
-        let name = r.pick(&names).to_string();
-        let ty = *r.pick(&[Ty::Int, Ty::Int, Ty::Qubit, Ty::Gate]);
+        let mut name = r.pick(&names).to_string();
+        let mut ty = *r.pick(&[Ty::Int, Ty::Int, Ty::Qubit, Ty::Gate]);
+        if r.chance(1, 10) {
+            name = r.pick(&["$0", "$1"]).to_string();
+            ty = Ty::HwQubit;
+        }
         let op = match r.below(12) {
             0 => Op::EnterLocal,
             1 => Op::EnterSub,
